@@ -737,14 +737,14 @@ def native(tier, seed, bdir, only=None):
         return []
     os.makedirs(bdir, exist_ok=True)
     exe = os.path.join(bdir, "cubical_values")
-    inc = ["-I" + REPO + "/src/Bitmap_cubical_complex/include", "-I" + REPO + "/src/common/include"]
+    inc = ["-I" + REPO + "/src/Bitmap_cubical_complex/include", "-I" + REPO + "/src/common/include", "-I" + REPO + "/src/Persistent_cohomology/include"]
     rc, o, e, s = sh(["g++", "-std=c++17", "-O2", "-w"] + inc + [os.path.join(VERIF, "native", "cubical_values.cpp"), "-o", exe, "-ltbb"], 600)
     if rc != 0:
         return [{"unit": "native.values_and_order", "status": "error", "notes": (o + e)[-1500:], "cases": 0, "failures": []}]
     rc, o, e, secs = sh([exe, str(seed), "1" if tier == "thorough" else "0"], 3600)
     rec = {"unit": "native.values_and_order", "route": "B", "kind": "native (exhaustive for small inputs, sampled otherwise)", "status": "ok", "cases": 0,
            "failures": [], "seconds": round(secs, 2), "bound": "11 base shapes, 10 periodic shape/mask pairs, both input conventions; value alphabet {0,1,2,+inf,-inf} exhaustive for <= 6 input cells, sampled otherwise",
-           "desc": "each cell's value is the min over the top cells containing it / the max over its vertices; the filtration order lists every cell once, never decreases, faces first"}
+           "desc": "each cell's value is the min over the top cells containing it / the max over its vertices; the filtration order lists every cell once, never decreases, faces first; the same on a second life of the object; Betti numbers of the periodic grids over Z/2, Z/3, Z/5 are those of a product of circles and intervals"}
     try:
         js = json.loads(o.strip().split("\n")[-1])
         rec["cases"] = rec["obligations"] = js["checked"]
